@@ -157,6 +157,23 @@ def c13(tier):
     return q + [_ob("H-resubmit/wide", HR, "h_resubmit", dict(shapes=["chain3", "fork3", "join3"], bss=[1, 2]), **_HO)]
 
 
+KL = "harness.k_launch"
+
+
+def c19(tier):
+    xs = dict(conditions=["split_len0", "split_len1", "split_len2", "jade_len1_ff", "jade_len1_tf", "jade_len1_ft", "jade_len1_tt"],
+              twins=["twin_len2", "jade_twin"], timeout=600)
+    if tier == "thorough":
+        xs["conditions"] = xs["conditions"] + ["split_len3"]
+        xs["timeout"] = 1200
+    return [
+        _ob("K-launch/split", KL, "k_launch_split", dict(max_len=3 if tier == "quick" else 5)),
+        _ob("K-launch/rc", KL, "k_launch_rc", {}),
+        _ob("K-launch/real", KL, "k_launch_real", {}),
+        _ob("X-split", "harness.x_split", "x_split", xs, kind="direct", replay=("harness.x_split", "replay_direct")),
+    ]
+
+
 def obligations(prop, tier):
     table = {
         "C01": lambda t: k_batch(t) + k_queue(t) + h_submit(t),
@@ -174,6 +191,7 @@ def obligations(prop, tier):
         "C16": c16,
         "C17": c17,
         "C18": c18,
+        "C19": c19,
         "C20": c20,
     }
     f = table.get(prop)
